@@ -190,7 +190,8 @@ impl C10 {
                 }
                 if HELPER_GROUPS.contains(&g) {
                     for mode in 0..3u8 {
-                        classes.push((cls(leak(format!("{}/helper{}/{}", GROUP_NAMES[g], mode, sn)), 16, 1600), Kind::Helper(g, sc, mode)));
+                        let w = if mode == 2 { 20 } else { 90 };
+                        classes.push((cls(leak(format!("{}/helper{}/{}", GROUP_NAMES[g], mode, sn)), w, w * 100), Kind::Helper(g, sc, mode)));
                     }
                 }
             }
